@@ -225,6 +225,14 @@ func (ctx Context) SaveClient(client *goidc.Client) error {
 func (ctx Context) Client(id string) (*goidc.Client, error) {
 	for _, staticClient := range ctx.StaticClients {
 		if staticClient.ID == id {
+			// As for clients loaded from the storage, the keys fetched from
+			// jwks_uri are not kept from one request to the next, so that a
+			// key rotation is seen whichever instance serves the request.
+			if staticClient.PublicJWKSURI != "" {
+				c := *staticClient
+				c.PublicJWKS = nil
+				return &c, nil
+			}
 			return staticClient, nil
 		}
 	}
